@@ -531,7 +531,13 @@ fn breaker_doc(rng: &mut Rng) -> (ANode, Rendered, bool) {
 /// C17 error-span clause: a rejected input's ParseError::span() lies inside the source
 pub fn error_span_case(rng: &mut Rng, ctx: &mut Ctx) {
     let (doc, r, frag) = breaker_doc(rng);
-    let text = if rng.chance(2, 3) {
+    let text = if rng.chance(1, 5) {
+        let mut t = arbitrary_text(rng);
+        if rng.chance(1, 3) {
+            t = format!("\u{feff}{}", r.text);
+        }
+        t
+    } else if rng.chance(2, 3) {
         let k = rng.below(N_BREAKERS);
         match break_it(&doc, &r, k, rng, frag) {
             Some(b) => b.text,
@@ -540,6 +546,22 @@ pub fn error_span_case(rng: &mut Rng, ctx: &mut Ctx) {
     } else {
         mutate_text(&r.text, rng)
     };
+    // whatever is accepted: the spans must be self-consistent with the source
+    for frag in [false, true] {
+        let mut xot = Xot::new();
+        let r = guard(|| if frag { xot.parse_fragment_with_span_info(&text) } else { xot.parse_with_span_info(&text) });
+        if let Ok(Ok((d, si))) = r {
+            if let Some((clause, item, what)) = super::parsing::span_self_check(&xot, d, &si, &text) {
+                ctx.violation(
+                    "a recorded span does not point at the right text",
+                    format!("C17/{}/self-check/{}/{}", if frag { "parse_fragment_with_span_info" } else { "parse_with_span_info" }, clause, item),
+                    J::obj().set("text", J::s(trunc(&text, 1200))).set("what", J::s(what)),
+                );
+                return;
+            }
+            ctx.count("span_self_checks_passed");
+        }
+    }
     for ep in [PEp::Parse, PEp::ParseSpan, PEp::Fragment, PEp::FragmentSpan] {
         let mut xot = Xot::new();
         if let Ok(Err(e)) = run_ep(&mut xot, ep, &Input::Text(&text)) {
